@@ -105,11 +105,22 @@ theorem recv_response {E : AEAD} {A B : Ctx} {seq : Nat} {m : Msg} {r rc : ReqId
       P.outer.payload = E.enc A.senderKey nonce (aad A.algValue r.kid r.piv) pt ∧
       P.outer.code = responseCode r.style ∧
       findOpt 6 P.outer.opts = none ∧
+      ((r.canReuse = true ∧ constructNonce B.ivBytes B.commonIv rc.piv rc.kid = some nonce) ∨
+       (r.canReuse = false ∧ seq < maxSeqno ∧
+        constructNonce B.ivBytes B.commonIv (shortPiv seq) B.recipientId = some nonce)) ∧
       recvParams E.tagBytes B (some rc) P.outer =
         .ok { nonce, aad := aad A.algValue r.kid r.piv, rid := rc,
               seqno := if r.canReuse then none else some seq } := by
   obtain ⟨_, _, pt, nonce, o, hpt, hmode, hP⟩ := protect_response_shape h
-  refine ⟨pt, nonce, hpt, by rw [hP], by rw [hP], by rw [hP]; simp [findOpt], ?_⟩
+  have hnonce : (r.canReuse = true ∧ constructNonce B.ivBytes B.commonIv rc.piv rc.kid = some nonce) ∨
+      (r.canReuse = false ∧ seq < maxSeqno ∧
+        constructNonce B.ivBytes B.commonIv (shortPiv seq) B.recipientId = some nonce) := by
+    rcases hmode with ⟨hcr, hn, _⟩ | ⟨hcr, hseq, hn, _⟩
+    · left; refine ⟨hcr, ?_⟩
+      rw [← hAB.iv, ← hAB.civ, hk, hp]; exact hn
+    · right; refine ⟨hcr, hseq, ?_⟩
+      rw [← hAB.iv, ← hAB.civ, ← hAB.id, constructNonce_shortPiv hseq]; exact hn
+  refine ⟨pt, nonce, hpt, by rw [hP], by rw [hP], by rw [hP]; simp [findOpt], hnonce, ?_⟩
   have hlen : E.tagBytes + 1 ≤ (E.enc A.senderKey nonce (aad A.algValue r.kid r.piv) pt).length := by
     have := E.tagLen A.senderKey nonce (aad A.algValue r.kid r.piv) pt
     have := buildPlaintext_ne_nil hpt
